@@ -22,6 +22,21 @@ P = {
          "TLC proves (bounded, exhaustive) that the quoting scheme is read back as one literal word by the lexer model; every "
          "real output on the same space plus seeded byte strings is judged by that model; a violation needs model and real shells to agree",
          "the lexer model in ShellQuote.tla (validated against dash/bash on every judged text); C locale; HOME fixed", "5/C16"),
+
+ "C10": ("spec/config/ArgParse.tla (+ArgParseMC, ArgParseCases)",
+         "TLA+ spec of the documented argv grammar (statement) and of the index-scanning loop (implementation-shaped); TLC "
+         "checks refinement + extension facts on all vectors <= 3/4 over 38 tokens; real Parse results on the same vectors "
+         "and on seeded byte tokens judged by TLC against the grammar",
+         "bounded-exhaustive refinement Machine = Grammar in TLC, and every recorded run of the real NewFlagSet+Parse "
+         "(error-ness, field values, Args(), ShowUsage(), no panic) must be the outcome the grammar prescribes",
+         "error text not compared; int/bool text parsing beyond plain decimals delegated to strconv (spec marks it unknown)", "5/C10"),
+ "C09": ("spec/config/Priority.tla, spec/config/Snake.tla",
+         "TLA+ spec with the steps of NewFlagSet+Parse and the FirstPresent statement; TLC checks all source-presence "
+         "scenarios; every scenario with its predicted final values is replayed on the real Parse with run-time built structs",
+         "TLC exhausts the scenario space (presence lattice per field x carriers) for PriorityHolds/Independent, rejects four "
+         "wrong-priority mutants, and exports each scenario with the predicted winner; the harness replays them on real code "
+         "for all 9 kinds, nesting, tag syntaxes, cli spellings, with env names derived by the Snake spec",
+         "strconv/encoding-json value parsing trusted; value tokens instantiated from per-kind pools incl. extremes", "5/C09"),
 }
 
 NOT_BUILT_REASON = "check not built yet in this session (see DESIGN.md section 5 for the planned TLA+ spec and binding)"
